@@ -199,7 +199,7 @@ impl PathSelector {
         s.starts_with(".*")
             || Path::from(s).is_absolute()
             || Self::matches_only_from_root(pattern)
-            || Self::matches_across_directories(pattern)
+            || (!pattern.is_glob() && Self::matches_across_directories(pattern))
     }
 
     /// Returns true if every path the pattern can match starts with the separator,
@@ -216,6 +216,8 @@ impl PathSelector {
 
     /// Returns true if the pattern starts with something that matches any number of directories,
     /// like `.*` does: `.+/a`, `\S+`.
+    /// That does not apply to globs. In a glob, only `**` spans directories and it is translated
+    /// to `.*`, but relative globs like `*/**` can match a path that starts with many separators.
     fn matches_across_directories(pattern: &Pattern) -> bool {
         pattern.can_start_with(&[MAIN_SEPARATOR as u8; 16]) == Some(true)
     }
